@@ -208,6 +208,73 @@ CLAIMED.update({
         technique="Lean 4 proof (rank invariant, BUILD soundness and completeness) + exhaustive differential correspondence"),
 })
 
+# ---- build round 2: results of the proof work-packages (see DESIGN.md section 13) ----
+CLAIMED["C02"]["text"] = ("Lean 4 proof for all inputs with non-empty leaf syntenies (coherent costs spe + 2*sloss <= dup + 2*floss, "
+    "binary species tree): the ordered solvers return exactly the valid ordered super-reconciliations of minimum evaluated "
+    "cost over ALL species mappings (base: the LCA mapping), ALL root orders and ALL subsequence labellings "
+    "(C02_full, C02_ext_exact, C02_base_exact), duplicate-free, empty iff no root order exists; the executable oracle "
+    "Spec.optimum is proved adequate w.r.t. every valid sequence-labelled solution (no coherence needed).  With a "
+    "prescribed root order only the oracle lower bound and the mask-level optimality are proved.  Models tied to the code "
+    "by differential runs against the model and the brute-force specification.")
+CLAIMED["C02"]["technique"] = "Lean 4 proof (label-DP optimality at bitmask labels + oracle adequacy) + differential correspondence"
+CLAIMED["C03"]["text"] = ("Lean 4 proof for binary species trees, inside spe + sloss <= dup + 2*floss: the unordered solvers "
+    "(SuperDTL and base) return valid solutions whose evaluated cost EQUALS the minimum over every labelling between "
+    "required and allowed content and every species mapping (C03_full_eq; the exchange argument 'canonical labellings lose "
+    "nothing' is C03_exchange; DP edge charges = evaluator on materialised contents is C03_kinds_faithful, unguarded); "
+    "the unguarded statement is shown false on a ternary species tree (kernel-checked witness).  Remaining link: adequacy "
+    "of the labelling space of Spec.optimum w.r.t. Spec.validSol for the unordered model (explored by the check against "
+    "brute force over every labelling).")
+CLAIMED["C03"]["technique"] = "Lean 4 proof (label-DP optimality at {LCA,INHERIT} + exchange argument) + differential correspondence against brute force"
+CLAIMED["C04"]["text"] = ("Lean 4 proof for all seven algorithms and every cost vector (sloss = 0 included): every returned solution is a "
+    "valid, complete (super-)reconciliation of finite cost; ordered: child syntenies are subsequences, the root holds every "
+    "family once; unordered: a family occurs only at or below its gain node and never below a node lacking it, every node "
+    "holds at least its required content (C04_unord, unguarded).  All clauses are also evaluated by the Lean specification "
+    "Spec.validSol on every solution the real algorithms return (both policies, refinements of multifurcating inputs).")
+CLAIMED["C05"]["text"] = ("Lean 4 proof: thl, exh and the ordered solvers return exactly the optimal valid solutions, each once; the "
+    "unordered solvers return exactly the canonical optimal set (C05_unord_all); the ANY policy is modelled end-to-end for "
+    "every offering order (selection functions) and proved to return exactly one member of the ALL result, of the same cost, "
+    "empty iff ALL is empty, for thl, ordered and unordered solvers inside the coherent region (the hypothesis is shown "
+    "necessary).  The real 'any' result is compared with the model's reachable-under-ANY set on every generated input.")
+CLAIMED["C05"]["technique"] = "Lean 4 proof (ALL tags retained through the DP; ANY as arbitrary selection) + differential correspondence"
+CLAIMED["C08"]["text"] = ("Lean 4 proof for the refinement enumerator on trees of any arity and any nesting: graft / arrange counts "
+    "((2k-3)!!), binarize lists EVERY binary refinement exactly once up to child order (sound, complete, duplicate-free, "
+    "product count; C08_binarize_exactly_once), original names/colours stay on the node with the same clade, the "
+    "topology-id 'ignore' mechanism is faithful; the extended solvers' result is the arg-min over all refinement pairs.  "
+    "The check compares the real enumerator and the end-to-end optimum with an independent refinement generator.")
+CLAIMED["C09"]["text"] = ("Lean 4 proof: scaling all unit costs by k > 0 scales the optimum and keeps the optimal set, raising costs never "
+    "lowers the optimum (Spec.optimum, all modes, no coherence; transferred to thl, exh, ordered and unordered solvers); "
+    "swapping the children of an object node or of a species node and adding an empty outgroup above the species root are "
+    "cost-preserving bijections of valid solutions in all modes (minimum unchanged; with floss > 0 the optimal set is exactly "
+    "the embedded one; the cost hypothesis of the outgroup clause is shown necessary), transferred to exh / thl.  Renaming "
+    "and re-running are runtime facts decided by metamorphic runs of the real solvers (fresh processes under different "
+    "hash seeds in the thorough tier) against the single Lean model result.")
+CLAIMED["C09"]["technique"] = "Lean 4 proof (cost-preserving bijections, linearity) + metamorphic correspondence"
+CLAIMED["C10"]["text"] = ("Lean 4 proof under the property's guards (binary species tree, coherent costs): thl <= lca with equality (and "
+    "thl = [lca] when floss > 0) for an infinite transfer cost; extended <= base for the ordered and the unordered solvers on "
+    "evaluated costs; on single-family inputs all label costs vanish, ordered = unordered = thl and both base variants equal "
+    "the LCA cost.  'unordered <= ordered' on every input is stated (proved with equality on single-family inputs) and "
+    "explored by the check on the real algorithms' costs.")
+CLAIMED["C10"]["technique"] = "Lean 4 proof (corollaries of the optimality theorems) + cross-algorithm differential correspondence"
+CLAIMED["C13"]["text"] = ("Full Lean 4 proof for all valid reconciliations over binary species trees: _compute_branches never raises; "
+    "every object node has EXACTLY ONE branch, in its species, of the evaluator's kind; the (lineage, species) pairs of the "
+    "full-loss pseudo-genes are a permutation of the evaluator's full-loss records (so floss * #markers is the loss part of "
+    "the cost); one transfer branch per transfer ending at the transferred child's anchor; render succeeds and emits one "
+    "event statement per node, one loss marker per loss, one arrow per transfer (both orientations).  Real layout.compute / "
+    "tikz.render output under a stub measurer is compared with the model.")
+CLAIMED["C13"]["technique"] = "Lean 4 invariant proof over the branch-construction pass + differential correspondence"
+CLAIMED["C14"]["text"] = ("Full Lean 4 proof over exact rationals for positive sizes and non-negative parameters: horizontal layout = "
+    "transpose of the vertical layout with swapped sizes, sibling boxes disjoint and inside the parent's box, trunks inside "
+    "their boxes and pairwise interior-disjoint, branches inside their species' trunk, one entry per species; every "
+    "dictionary look-up of _layout_branches / _tikz_draw_branches succeeds for every valid input (C14_anchors; validity and "
+    "binarity shown necessary).  Real layouts under dyadic stub sizes are compared coordinate by coordinate with the model.")
+CLAIMED["C20"]["text"] = ("Full Lean 4 proof: union-find with path compression and rank reports exactly the partition generated by its "
+    "unions; binary() enumerates each two-block coarsening once for ANY iteration order of the representatives; BUILD returns "
+    "a displaying tree iff one exists, AllTrees returns exactly the displaying binary trees, each once; BreakUp followed by "
+    "BUILD preserves the clades for ANY pop order of tree_to_triples; a supertree displays EVERY induced triple of each input "
+    "tree and exists iff the inputs are compatible.  Models tied to the code by exhaustive small trees / triple sets / union "
+    "histories against brute force.")
+CLAIMED["C20"]["note"] = TRUST + "the order-generic theorems are about a nondeterministic model of the tree_to_triples loop that contains the driver-tested order."
+
 PENDING = "check not built yet in this round (planned: Lean 4 model + proof + correspondence, see DESIGN.md section 7)"
 
 
